@@ -1,0 +1,37 @@
+/*
+ * Observation points for model-based verification (trace validation against
+ * a TLA+ specification).  Everything in this file is inert unless the
+ * library is compiled with -DSLU_MT_VERIF; the two callbacks are supplied by
+ * the verification harness, not by the library.
+ *
+ * SLU_VERIF_EV(name, pnum, a1, ...)        one event with scalar arguments
+ * SLU_VERIF_EVL(name, pnum, list, n, a1, ...)  ... plus a list of int_t
+ *
+ * Logging discipline: an event protected by a lock is logged inside the
+ * critical section after the change; a release (store that other threads
+ * wait for) is logged before the store; an acquire after the load.
+ */
+#ifndef SLU_MT_VERIF_H
+#define SLU_MT_VERIF_H
+#ifdef SLU_MT_VERIF
+extern void slu_verif_ev(const char *name, int pnum, int nargs,
+			 const long *args, const int_t *list, int_t nlist);
+extern int  slu_verif_self(void);       /* pnum of the calling thread */
+extern void slu_verif_set_self(int pnum);
+#define SLU_VERIF_EV(name, pnum, ...) do { \
+    long verif_a_[] = { __VA_ARGS__ }; \
+    slu_verif_ev(name, (int)(pnum), (int)(sizeof verif_a_/sizeof verif_a_[0]), \
+		 verif_a_, 0, 0); } while (0)
+#define SLU_VERIF_EVL(name, pnum, list, n, ...) do { \
+    long verif_a_[] = { __VA_ARGS__ }; \
+    slu_verif_ev(name, (int)(pnum), (int)(sizeof verif_a_/sizeof verif_a_[0]), \
+		 verif_a_, list, n); } while (0)
+#define SLU_VERIF_SELF() slu_verif_self()
+#define SLU_VERIF_SET_SELF(p) slu_verif_set_self((int)(p))
+#else
+#define SLU_VERIF_EV(name, pnum, ...)
+#define SLU_VERIF_EVL(name, pnum, list, n, ...)
+#define SLU_VERIF_SELF() 0
+#define SLU_VERIF_SET_SELF(p)
+#endif
+#endif /* SLU_MT_VERIF_H */
